@@ -71,6 +71,10 @@ theorem out_id_zero (m : Bool) : Gen.Reply.out_id_zero m = m := rfl
 theorem out_class_flush (u m : Bool) : Gen.Reply.out_class_flush u m = (u && m) := rfl
 theorem out_class_with_flush (c : Nat) : Gen.Reply.out_class_with_flush c = c ||| 0x8000 := rfl
 theorem out_class_plain (c : Nat) : Gen.Reply.out_class_plain c = c := rfl
+theorem in_qu_flag_test (u : Bool) : Gen.Reply.in_qu_flag_test u = u := rfl
+theorem in_qu_flag_value (u : Bool) : Gen.Reply.in_qu_flag_value u = true := rfl
+theorem ans_unicast_multicast_arg (id : Int) (us : Bool) : Gen.Reply.ans_unicast_multicast_arg id us = false := rfl
+theorem ans_multicast_multicast_arg : Gen.Reply.ans_multicast_multicast_arg = true := rfl
 theorem can_send_to (v6 colon : Bool) : Gen.Reply.can_send_to v6 colon = true ↔ v6 = colon := by
   cases v6 <;> cases colon <;> simp [Gen.Reply.can_send_to]
 
